@@ -192,7 +192,14 @@ class Execution:
         return n
 
 
-def run(bodies, prefix, trace_match=None, setup=None, teardown=None, timeout=60., before_fork=None, late_workers=0):
+def run(*args, **kwargs):
+    '''one execution (see _run), under the machine-wide fork token (core.fork_token: concurrent forking is slower than serial forking here)'''
+    from . import core
+    with core.fork_token():
+        return _run(*args, **kwargs)
+
+
+def _run(bodies, prefix, trace_match=None, setup=None, teardown=None, timeout=60., before_fork=None, late_workers=0):
     '''one execution: fork len(bodies) workers, follow `prefix` (list of choice indices), then default choices.
     bodies: list of callables body(ctx) -> picklable result, run in the child; ctx is what setup() returned.'''
     global _WORKER
@@ -341,19 +348,31 @@ def run(bodies, prefix, trace_match=None, setup=None, teardown=None, timeout=60.
     return ex
 
 
-def explore(run_one, bound, on_execution, max_executions=None):
+def explore(run_one, bound, on_execution, max_executions=None, part=None, split_depth=2):
     '''iterative preemption bounding: run_one(prefix) -> Execution. on_execution(ex) is called for every execution (return False to stop).
-    Returns number of executions; raises nothing on property failure (the callback records it).'''
+    Returns number of executions; raises nothing on property failure (the callback records it).
+    part=(k, n) splits the exploration over n shards.  Every shard walks the top of the execution tree (the default schedule and all
+    executions with fewer than `split_depth` deviations from it) in the same deterministic order and numbers what it meets; execution
+    number c of the top and subtree number c at depth `split_depth` belong to shard c mod n.  The union of the n parts is exactly the
+    set of executions explored without `part`; executions of the top that belong to another shard are run (to enumerate their
+    children) but neither counted nor judged here.'''
     count = 0
-    stack = [[]]
+    stack = [([], 0)]
+    c = 0
     while stack:
-        prefix = stack.pop()
+        prefix, depth = stack.pop()
+        top = part is not None and depth < split_depth
         ex = run_one(prefix)
-        count += 1
-        if on_execution(ex) is False:
-            return count
-        if max_executions and count >= max_executions:
-            return -count
+        mine = True
+        if top:
+            mine = c % part[1] == part[0]
+            c += 1
+        if mine:
+            count += 1
+            if on_execution(ex) is False:
+                return count
+            if max_executions and count >= max_executions:
+                return -count
         for i in range(len(prefix), len(ex.points)):
             p = ex.points[i]
             before = ex.preemptions_before(i)
@@ -361,5 +380,9 @@ def explore(run_one, bound, on_execution, max_executions=None):
                 cost = before + (1 if p['running'] in p['enabled'] else 0)
                 if cost > bound:
                     continue
-                stack.append(ex.choices[:i] + [alt])
+                if top and depth + 1 == split_depth:
+                    c += 1
+                    if (c - 1) % part[1] != part[0]:
+                        continue
+                stack.append((ex.choices[:i] + [alt], depth + 1))
     return count
